@@ -220,13 +220,36 @@ inline std::string battery()
 }
 
 // in a forked child, so that a crash or an abort during static initialisation becomes a result instead of ending the harness
-inline std::string run_in_child(bool hostile_locale);
+inline std::string run_in_child(bool hostile_locale, bool at_exit = false);
+// the battery once more while the process is being torn down: from an atexit handler registered before the first library call of
+// that process, i.e. after the destructors of everything the library created on first use (function-local statics) have run
+inline std::string &exit_result()
+{
+    static std::string r;
+    return r;
+}
+inline int &exit_pipe()
+{
+    static int fd = -1;
+    return fd;
+}
+inline void exit_handler()
+{
+    std::string r = "\n#AT-EXIT\n" + battery();
+    size_t off = 0;
+    while (off < r.size()) {
+        ssize_t n = write(exit_pipe(), r.data() + off, r.size() - off);
+        if (n <= 0) break;
+        off += (size_t)n;
+    }
+}
 inline Runner::Runner()
 {
     give_values();
     early_result() = run_in_child(false);
+    exit_result() = run_in_child(false, true);
 }
-inline std::string run_in_child(bool hostile_locale)
+inline std::string run_in_child(bool hostile_locale, bool at_exit)
 {
     int fd[2];
     if (pipe(fd) != 0) return "machinery:pipe";
@@ -239,6 +262,11 @@ inline std::string run_in_child(bool hostile_locale)
             std::locale l(std::locale(std::locale::classic(), new HostileCtype), new HostileNumpunct);
             std::locale::global(l);
         }
+        if (at_exit) {
+            exit_pipe() = fd[1];
+            (void)exit_pipe();
+            atexit(exit_handler);
+        }
         std::string r = battery();
         size_t off = 0;
         while (off < r.size()) {
@@ -246,6 +274,7 @@ inline std::string run_in_child(bool hostile_locale)
             if (n <= 0) break;
             off += (size_t)n;
         }
+        if (at_exit) exit(0);  // runs the destructors of function-local statics created by the battery, then exit_handler
         _exit(0);
     }
     close(fd[1]);
@@ -314,5 +343,28 @@ inline void add_stage(vf::Plan &plan)
                    c.nontrivial();
                },
                [](uint64_t) { return std::string("battery under a non-classic global locale"); });
+    plan.stage("process exit: the battery run again from an atexit handler registered before the process' first library call (after the destructors of "
+               "whatever the library created on first use), compared with its first run in that process",
+               1,
+               [](uint64_t, vf::Ctx &c) {
+                   const std::string &r = exit_result();
+                   VF_COUNT("validated");
+                   size_t cut = r.find("\n#AT-EXIT\n");
+                   if (r.find("\n#crash:") != std::string::npos)
+                       c.fail("process-exit:library-call-fails-during-exit", r.substr(r.rfind("\n#") + 2));
+                   else if (cut == std::string::npos)
+                       c.fail("process-exit:library-call-fails-during-exit", "the exit-time battery produced nothing");
+                   else {
+                       std::string first = r.substr(0, cut), second = r.substr(cut + 10);
+                       size_t e = second.find("\n#exit:");
+                       if (e != std::string::npos) second = second.substr(0, e);
+                       std::string d = first_difference(second, first);
+                       if (!d.empty())
+                           c.fail("process-exit:result-differs-during-exit:" + d,
+                                  vf::strf("library calls made from an atexit handler give other results than the same calls earlier in the process; first difference in section '%s'", d.c_str()));
+                   }
+                   c.nontrivial();
+               },
+               [](uint64_t) { return std::string("battery at process exit"); });
 }
 }  // namespace vf_early
